@@ -67,6 +67,10 @@ CHECKS["C03"] = dict(engine="E1", level="exploration", technique="deterministic 
    text="MemFS trees of depth up to 3 with seeded owner, group and permission bits (incl. sticky) on every node, three MemIdm users u1(g1) u2(g1) u3(g2) acting through their own Sub views with their own umask, and the administrator; seeded histories of 10-50 path-taking calls (Mkdir, MkdirAll, OpenFile with every flag set, Create, WriteFile, ReadFile, ReadDir, Remove, RemoveAll, Rename, Link, Symlink, Truncate, Chmod, Chown, Lchown, Chtimes, Chdir, Stat, Lstat, Readlink) interleaved at call granularity, with administrator chmod/chown of nodes on the users' paths between calls; every call in lockstep under the acting user's ids on the real kernel: same allow/deny and errno, same data, identical trees afterwards (owner, group and mode of created objects included). Sampling, not proof.",
    note="group class = primary group only (the helper drops supplementary groups); Link by non-owners not issued (fs.protected_hardlinks=1 on this kernel); setuid/setgid bits not generated; when RemoveAll fails on both sides the errno is not compared (unspecified traversal order) and the trees are resynchronised; a refusal that only comes from os.RemoveAll opening the parent of its operand is not counted", ref="3/C03")
 
+CHECKS["C14"] = dict(engine="E1", level="exploration", technique="deterministic lockstep simulation of enumeration queries against path/filepath and os on the real kernel, with callback interference at every visit index and unreadable directories as faults",
+   text="MemFS and OrefaFS trees of depth up to 4 built by seeded histories (names that prefix each other or are made of pattern characters; on MemFS symbolic links of every shape and directories unreadable or unsearchable for the non-administrator issuing half of the queries), 10-30 queries interleaved with tree mutations: Glob of patterns derived from the tree's own paths (stars, question marks, classes, ranges, negations, escapes, malformed terms, trailing and doubled separators, relative), WalkDir from every kind of root with SkipDir / SkipAll / an error returned at every visit index of walks up to 14 visits (drawn indices beyond) and on visits reporting an unreadable directory, ReadDir, Exists/DirExists/IsDir/IsEmpty; each query in lockstep with filepath.Glob, filepath.WalkDir, os.ReadDir in the chrooted helper under the same uid; helpers compared with what Stat and ReadDir of the same instance imply; each query repeated through RoFS, FailFS and a BasePathFS rooted at an ancestor. Sampling, not proof.",
+   note="FailFS.WalkDir hands the walk to the wrapped file system, so failures below the root of a walk cannot be injected through FailFS: unreadable directories come from permissions (MemFS only). Which strings match which names is a pure function (C13).", ref="3/C14")
+
 NA = {
  "C13": "Clean, Join, Split, Dir, Base, IsAbs, Rel, Abs, FromSlash, ToSlash, VolumeName, Match and PathIterator are pure functions of their string arguments and the OS-type constant: there is no schedule, clock, I/O, fault or shared state for a simulator to control; generating strings is input fuzzing, a different technique (DESIGN.md section 4).",
 }
